@@ -86,13 +86,31 @@ def reproducer(pid, line):
 
 
 def run_cases(mod, lines):
+    """Execute the cases on the implementation.  The address space of this process is capped while they run, so that a
+    runaway allocation inside the library (e.g. a cache that doubles on every call) surfaces as a MemoryError of the call -
+    an observable outcome - instead of the kernel killing the whole check."""
+    import resource
+    soft, hard = resource.getrlimit(resource.RLIMIT_AS)
+    cap = int(os.environ.get("VERIF_MEM_CAP_GB", "16")) * (1 << 30)
+    try:
+        resource.setrlimit(resource.RLIMIT_AS, (cap if hard == resource.RLIM_INFINITY else min(cap, hard), hard))
+    except (ValueError, OSError):
+        pass
     outs = []
-    for l in lines:
+    try:
+        for l in lines:
+            try:
+                o, e = mod.execute(l)
+            except MemoryError:
+                o, e = "err Internal:MemoryError", {"memory_error": True}
+            except Exception:                                     # harness bug, not an observable
+                raise RuntimeError("harness failure on case %r\n%s" % (l, traceback.format_exc()))
+            outs.append((o, e))
+    finally:
         try:
-            o, e = mod.execute(l)
-        except Exception:                                     # harness bug, not an observable
-            raise RuntimeError("harness failure on case %r\n%s" % (l, traceback.format_exc()))
-        outs.append((o, e))
+            resource.setrlimit(resource.RLIMIT_AS, (soft, hard))
+        except (ValueError, OSError):
+            pass
     return outs
 
 
